@@ -677,3 +677,49 @@ Proof.
     destruct (commuting_exact (0, - (INR k * dt)) (map hterm_of H) Hn Hc (get (c0 rops) v) (lsum v) (get_bdd v) x) as [S1 S2].
     split; apply is_series_Reals; assumption.
 Qed.
+
+(* ---- the same for the symmetric step: k second-order steps with the half-step values ---- *)
+Lemma iter_steps_cong (step1 step2 : state (T:=R) -> outcome (state (T:=R))) n :
+  (forall v, length v = N.to_nat (2 ^ n) -> step1 (mkState n v) = step2 (mkState n v)) ->
+  (forall v, length v = N.to_nat (2 ^ n) -> forall s, step2 (mkState n v) = Ok s -> nq s = n /\ length (vec s) = N.to_nat (2 ^ n)) ->
+  forall k v, length v = N.to_nat (2 ^ n) -> iter_steps k step1 (mkState n v) = iter_steps k step2 (mkState n v).
+Proof.
+  intros H12 Hwf. induction k as [|k IH]; intros v Hl; [reflexivity|]. cbn [iter_steps]. rewrite (H12 v Hl).
+  destruct (step2 (mkState n v)) as [[n' w]| |] eqn:E; cbn [bind]; try reflexivity.
+  destruct (Hwf v Hl _ E) as [Hn Hw]. cbn [nq vec] in Hn, Hw. subst n'. now apply IH.
+Qed.
+
+Theorem commuting_evolve_second_exact par n (Hhalf : list (eterm (T:=R))) (dt : R) (k : nat) v :
+  Hhalf <> [] -> List.Forall (term_ok n) Hhalf -> length v = N.to_nat (2 ^ n) -> List.Forall (true_values (dt / 2)) Hhalf ->
+  commuting_terms (map hterm_of Hhalf) ->
+  exists w, trotter_evolve rops par Second Hhalf k (mkState n v) = Ok (mkState n w) /\ length w = N.to_nat (2 ^ n) /\
+    forall x, (x < 2 ^ n)%N ->
+      infinite_sum (fun j => fst (et (Hf (map hterm_of Hhalf)) (0, - (INR k * dt)) j (get (c0 rops) v) x)) (fst (get (c0 rops) w x)) /\
+      infinite_sum (fun j => snd (et (Hf (map hterm_of Hhalf)) (0, - (INR k * dt)) j (get (c0 rops) v) x)) (snd (get (c0 rops) w x)).
+Proof.
+  intros Hne Hok Hl Htv Hc.
+  set (Hfull := map (full_of dt) Hhalf).
+  assert (Hh : map hterm_of Hfull = map hterm_of Hhalf) by (unfold Hfull; rewrite map_map; apply map_ext; intros e; reflexivity).
+  assert (Hok' : List.Forall (term_ok n) Hfull).
+  { apply List.Forall_map. eapply List.Forall_impl; [|exact Hok]. intros e He. exact He. }
+  assert (Htv' : List.Forall (true_values dt) Hfull).
+  { apply List.Forall_map. eapply List.Forall_impl; [|exact Htv]. intros [P [[ea ch] sh]] [H0 _]. apply full_true_values. exact H0. }
+  assert (Hne' : Hfull <> []) by (unfold Hfull; destruct Hhalf; [contradiction|discriminate]).
+  assert (Hcm : commuting rops (map (to_f rops) Hhalf)).
+  { intros a b Ha Hb. apply in_map_iff in Ha. destruct Ha as [ea [<- Ha]]. apply in_map_iff in Hb. destruct Hb as [eb [<- Hb]].
+    assert (S : forall e : eterm (T:=R), snd (to_f rops e) = snd (hterm_of e)).
+    { intros [P [[x y] z]]. unfold to_f, hterm_of. cbn [fst snd]. destruct (pops P); reflexivity. }
+    rewrite !S. apply Hc; apply in_map; assumption. }
+  assert (Hd : map (to_f rops) Hfull = map (fdbl rops) (map (to_f rops) Hhalf)).
+  { unfold Hfull. rewrite !map_map. clear -Htv. induction Htv as [|e r He Hr IH]; cbn [map]; [reflexivity|]. rewrite IH. f_equal. now apply to_f_full_dbl. }
+  assert (Hc' : commuting_terms (map hterm_of Hfull)) by (rewrite Hh; exact Hc).
+  destruct (commuting_evolve_exact par n Hfull dt k v Hne' Hok' Hl Htv' Hc') as [w [Ew [Lw Sw]]].
+  exists w. split; [|split; [exact Lw|]].
+  - rewrite <- Ew. unfold trotter_evolve. destruct Hhalf as [|e0 r0] eqn:E0; [contradiction|]. rewrite <- E0 in *.
+    destruct Hfull as [|f0 s0'] eqn:E1; [contradiction|]. rewrite <- E1 in *.
+    apply iter_steps_cong; [| |exact Hl].
+    + intros v' Hl'. apply (second_order_is_first_order_commuting rops rops_ring par n Hhalf Hfull v' Hne Hok Hok' Hl' Hcm Hd).
+    + intros v' Hl' s Hs. unfold first_order_step in Hs. rewrite E1 in Hs. rewrite <- E1 in Hs.
+      rewrite (run_eterms_is_runf rops rops_ring par n Hfull Hok' v' Hl') in Hs. injection Hs as <-. cbn [nq vec]. split; [reflexivity|apply map_R_length].
+  - intros x Hx. rewrite <- Hh. exact (Sw x Hx).
+Qed.
